@@ -31,7 +31,7 @@ func init() {
 		Level: "exploration",
 		Modes: []Mode{{Name: "server", Weight: 5}, {Name: "client", Weight: 4}},
 		Gen:   genC10, Run: runC10, Enum: enumC10,
-		QuickRuns: 5000, ThoroughRuns: 60000,
+		QuickRuns: 5000, ThoroughRuns: 240000,
 		Rule: "plan = (transport of the raw peer, a sequence of 1..12 frames drawn from a grammar-aware hostile corpus (header mutations, attachment counts, placeholder numbers, truncated JSON, wrong frame kind, unknown acks, out-of-state packets) mixed with valid frames, network chunking/latency, stalls) from VERIF_SEED; " +
 			"non-trivial = at least one hostile frame reached the decoder of an established Socket.IO socket and the honest connection was probed afterwards; distinct = distinct frame sequence x history digest",
 		Assumptions: []string{
